@@ -68,10 +68,17 @@ BIG_NEAR_TIE = scale(pseudo(1. + 2. ** -20), 2. ** 20)
 NEAR_TIE_33 = pseudo(1. + 2. ** -33)
 OFFSET_NEAR_TIE = [[0., 1., 1., 0., 1., 2. ** 20], [1., 1., 0., 1., 1., 2. ** 20]]
 NEAR_TIES = [BIG_NEAR_TIE, NEAR_TIE_33, OFFSET_NEAR_TIE]
-SCHEMES_QUICK = PRESETS[:4] + [GENERIC_A, GENERIC_B, GENERIC_C] + [scale(unifying(), 2.), scale(pseudo(), .25), BIG_NEAR_TIE]
+# small integer penalties that are not powers of two: sums and products of them are exact in double precision, so costs
+# that are equal as numbers are equal as floats — unless the code divides (rescaling by B[1], reciprocals), which is
+# then visible as a broken exact tie (3/5 + 3/5 != 6/5 in floats)
+INT_ODD = [[[0., 5., 3., 0., 5., 0.], [1., 1., 0., 1., 1., 0.]],
+           [[0., 3., 1., 1., 2., 1.], [2., 2., 0., 3., 3., 1.]],
+           [[0., 7., 7., 0., 7., 7.], [7., 7., 0., 7., 7., 0.]]]
+SCHEMES_QUICK = PRESETS[:4] + [GENERIC_A, GENERIC_B, GENERIC_C] + [scale(unifying(), 2.), scale(pseudo(), .25), BIG_NEAR_TIE,
+                                                                 INT_ODD[0]]
 SCHEMES_ALL = PRESETS + [GENERIC_A, GENERIC_B, GENERIC_C] + BOUNDARY + \
     [scale(s, k) for s in PRESETS[:4] for k in (2., .25)] + [scale(unifying(), 1. / 8192), scale(pseudo(), 1. / 8192)] + \
-    NEAR_TIES
+    NEAR_TIES + INT_ODD
 
 
 def grid_schemes(rng, count, values=(0., .5, 1., 2., 3.)):
